@@ -543,15 +543,6 @@ theorem same_writeSignal (S : Strs) (cfg : Cfg) (s : State) (b : Nat) : SameCM s
     · exact SameCM.refl s
     · exact ⟨rfl, rfl⟩
 
-theorem same_runTasks (S : Strs) (cfg : Cfg) (s : State) : SameCM s (runTasks S cfg s) := by
-  unfold runTasks
-  have : ∀ (ts : List Nat) (s0 : State), SameCM s0 (ts.foldl (writeSignal S cfg) s0) := by
-    intro ts
-    induction ts with
-    | nil => intro s0; exact SameCM.refl s0
-    | cons t ts ih => intro s0; exact SameCM.trans (same_writeSignal S cfg s0 t) (ih _)
-  exact SameCM.trans (this s.tasks s) ⟨rfl, rfl⟩
-
 theorem same_resolve (T : Tables) (S : Strs) (cfg : Cfg) (ty : Nat) (s : State) (vs : List (Nat × Bytes)) (acc : List (Nat × Nat)) :
     SameCM s (resolve T S cfg ty s vs acc).1 := by
   induction vs generalizing s acc with
@@ -996,6 +987,28 @@ theorem cinv_connect (s : State) (admitted : Bool) (h : CInvX s none) :
       exact ⟨by simp, ⟨0, by simp, by simp, by simp, by simp⟩, by simp, by simp [headNotDone]⟩
     · exact absurd hc' (by simp)
 
+theorem cinv_runTasks (S : Strs) (cfg : Cfg) (s : State) (h : CInvX s none) : CInvX (runTasks S cfg s) none := by
+  unfold runTasks
+  have : ∀ (ts : List Task) (s0 : State), CInvX s0 none → CInvX (ts.foldl (runTask S cfg (backendClose S)) s0) none := by
+    intro ts
+    induction ts with
+    | nil => intro s0 h0; exact h0
+    | cons t ts ih =>
+      intro s0 h0
+      apply ih
+      cases t with
+      | write b => exact cinvx_of_same _ _ none (same_writeSignal S cfg s0 b) h0
+      | close b => exact cinv_backendClose S s0 b h0
+  exact cinvx_of_same _ _ none ⟨rfl, rfl⟩ (this s.tasks s h)
+
+theorem same_poolRemove (s : State) (p : Nat) : SameCM s (poolRemove s p) := by
+  unfold poolRemove
+  split
+  · exact SameCM.refl s
+  · split
+    · exact SameCM.refl s
+    · exact ⟨rfl, rfl⟩
+
 /-- **the client-side invariant is inductive**: one event of any kind, with any choices -/
 theorem good_step (T : Tables) (S : Strs) (cfg : Cfg) (slotFn : Bytes → Nat) (s : State) (e : Event) (h : Good s) :
     Good (step T S cfg slotFn s e) := by
@@ -1011,10 +1024,11 @@ theorem good_step (T : Tables) (S : Strs) (cfg : Cfg) (slotFn : Bytes → Nat) (
     | connect adm => exact Or.inr (cinv_connect s adm hc)
     | clientBytes c chunk chs => exact good_clientBytes T S cfg slotFn s c chunk chs hc
     | clientClose c => exact Or.inr (cinvx_closeClient s c none hc (Or.inl rfl))
-    | runTasks => exact Or.inr (cinvx_of_same _ _ none (same_runTasks S cfg s) hc)
+    | runTasks => exact Or.inr (cinv_runTasks S cfg s hc)
     | backendBytes b chunk => exact good_backendBytes T S cfg slotFn s b chunk hc
     | backendClose b => exact Or.inr (cinv_backendClose S s b hc)
     | expire => exact Or.inr (cinv_expire S s hc)
+    | poolRemove p => exact Or.inr (cinvx_of_same _ _ none (same_poolRemove s p) hc)
 
 theorem good_run (T : Tables) (S : Strs) (cfg : Cfg) (slotFn : Bytes → Nat) (es : List Event) (s : State) (h : Good s) :
     Good (run T S cfg slotFn s es) := by
